@@ -284,9 +284,13 @@ pub fn session(toks: Vec<Tok>) -> Vec<Tok> {
         // cfg[4]: 0 / absent = the door after the TLS handshake; 1 = the real listener over TLS; 3 = the real listener over QUIC + HTTP/3
         let front_kind = cfg.get(4).copied().unwrap_or(0);
         let private_allowed = cfg[3] == 1;
+        // cfg[5] = 1: an ICMP forwarder is set up (raw sockets on the loopback interface; 996 when they cannot be had)
+        let icmp = cfg.get(5).copied().unwrap_or(0) == 1;
         let make_settings = move |addr: std::net::SocketAddr| {
-            use trusttunnel::settings::{Http1Settings, Http2Settings, ListenProtocolSettings, QuicSettings, Settings};
-            Settings::builder()
+            use trusttunnel::settings::{Http1Settings, Http2Settings, IcmpSettings, ListenProtocolSettings, QuicSettings, Settings};
+            let b = Settings::builder();
+            let b = if icmp { b.icmp(IcmpSettings::builder().interface_name("lo").build().unwrap()) } else { b };
+            b
                 .listen_address(addr)
                 .unwrap()
                 .listen_protocols(ListenProtocolSettings {
@@ -302,7 +306,11 @@ pub fn session(toks: Vec<Tok>) -> Vec<Tok> {
         };
         let mut _endpoint = None;
         let front = if front_kind == 0 {
-            Front::Door(trusttunnel::verif::ctx::make(make_settings("127.0.0.1:1".parse().unwrap()), crate::ctxutil::basic_hosts(), auth).unwrap())
+            match trusttunnel::verif::ctx::make(make_settings("127.0.0.1:1".parse().unwrap()), crate::ctxutil::basic_hosts(), auth) {
+                Ok(c) => Front::Door(c),
+                Err(_) if icmp => return vec![vec![996]],
+                Err(e) => panic!("context: {}", e),
+            }
         } else {
             match crate::front::start(make_settings, crate::ctxutil::basic_hosts, auth).await {
                 Some(e) => {
